@@ -47,6 +47,12 @@ def generate(rng, tier):
                 for ent in ("array", "ainto"):
                     e = e_array(S, [len(qs)], qs, qtag=qtag, lay=ql) if ent == "array" else e_ainto(S, [len(qs)], [len(qs)] + shape[1:], qs, qtag=qtag, lay=ql, blay="w")
                     cases.append({"line": i1_line(S, xs, shape, flat, ("lin", False), e, dtag=rng.choice(["sta", "dyn"])), "meta": {"oob": oob}})
+            bad = rng.choice([[len(qs) + 1] + shape[1:], [len(qs) - 1] + shape[1:], [len(qs)] + shape[1:] + [1],
+                              [len(qs)] + [d + 1 for d in shape[1:]] if shape[1:] else [len(qs), 1]])
+            bl = rng.choice(["c", "w", "f"])
+            for qtag in ("sta", "dyn"):
+                cases.append({"line": i1_line(S, xs, shape, flat, ("lin", False), e_ainto(S, [len(qs)], bad, qs, qtag=qtag, lay=ql, blay=bl),
+                                              dtag="dyn"), "meta": {"badbuf": True}})
         else:
             shape, _, _, xs, ys, flat = c04.gen_grid(rng, S)
             qx, qy = c04.queries2(rng, xs, ys, 4, S)
@@ -62,14 +68,26 @@ def generate(rng, tier):
             for qtag in ("sta", "dyn"):
                 cases.append({"line": i2_line(S, xs, ys, shape, flat, False, e_array(S, [len(qx)], qx, qy, qtag=qtag, lay=ql),
                                               dtag=rng.choice(["sta", "dyn"])), "meta": {"oob": oob}})
+                cases.append({"line": i2_line(S, xs, ys, shape, flat, False,
+                                              e_ainto(S, [len(qx)], [len(qx)] + shape[2:], qx, qy, qtag=qtag, lay=ql, blay="w"),
+                                              dtag=rng.choice(["sta", "dyn"])), "meta": {"oob": oob}})
+            # caller's buffer of the wrong shape (one query row too many / too few, wrong trailing axis): both paths must reject it
+            bad = rng.choice([[len(qx) + 1] + shape[2:], [max(len(qx) - 1, 0)] + shape[2:], [len(qx)] + shape[2:] + [1],
+                              [len(qx)] + [d + 1 for d in shape[2:]] if shape[2:] else [len(qx), 1]])
+            bl = rng.choice(["c", "w", "f"])
+            for qtag in ("sta", "dyn"):
+                cases.append({"line": i2_line(S, xs, ys, shape, flat, False, e_ainto(S, [len(qx)], bad, qx, qy, qtag=qtag, lay=ql, blay=bl),
+                                              dtag="dyn"), "meta": {"badbuf": True}})
     return cases
 
 
 def nontrivial(case, res):
-    return res.kind == "ok"
+    return res.kind in ("ok", "panic", "oob")
 
 
 def oracle(case, res):
+    if case["meta"].get("badbuf"):
+        return None if res.kind in ("panic", "bad-op") or "inexpressible" in res.raw else f"a buffer of the wrong shape must be rejected on the fast path and on the general path alike, got {res.raw[:80]}"
     if case["meta"].get("oob"):
         return None if res.kind == "oob" else f"a batch with rejected elements must return OutOfBounds, got {res.raw[:80]}"
     return None if res.kind == "ok" else f"in-range batch must be answered, got {res.raw[:80]}"
